@@ -35,7 +35,6 @@ CHECKS = [
 ]
 
 NOT_APPLICABLE = [
-    {"property_id": "C09", "reason": "the assembler is a lark (Earley) grammar plus tree transformers over text: a symbolic numeral inside the source string is concretised by the parser and by every str operation, so each operand value would be enumerated (sampling, not a solver verdict); the parser-free inverse, encode(decode(b)) == b, is claimed as C02; see DESIGN.md 9.7"},
     {"property_id": "C10", "reason": "two-pass layout of whole source programs goes through the same text parser (lark) and through bincopy; program text cannot be made symbolic without enumerating it; see DESIGN.md 9.7"},
     {"property_id": "C16", "reason": "snapshot save/load crosses zipfile/json/file I/O (Python) and a feature whose zip dependency is absent (Rust); not encodable, see DESIGN.md C16"},
 ]
@@ -121,10 +120,10 @@ CHECKS.append({
 NOT_APPLICABLE[:] = [n for n in NOT_APPLICABLE if n["property_id"] not in {c["id"] for c in CHECKS}]
 RUNNERS["C12"] = ("irq_check", "main", ())
 CHECKS.append({
-    "id": "C12", "engine": "rsym", "level": "other", "design_ref": "DESIGN.md section 9 / C12",
-    "technique": "inductive step decided by z3: one CoreRuntime::step of the real Rust runtime (LLVM IR, rsym) from an arbitrary interrupt-controller state (IMR, ISR, pending / in-interrupt / key-latch flags, power state, F, stack contents, vector, timer targets symbolic) for a set of programs at PC (NOP, RETI, HALT, OFF, writes to IMR/ISR), compared with the interrupt rules of the property statement",
-    "level_text": "Rust runtime only. z3 decides for all controller states that an interrupt is taken only with the master enable and an unmasked pending source and never while powered off; that taking it pushes exactly IMR, F and the resume PC, clears only the master enable, continues at the vector and marks the handler; that an unmasked pending request is taken in the very next step; that nothing is pushed otherwise; that a halted / powered-off CPU executes nothing and leaves that state exactly when a status bit is pending; that a powered-off CPU does not advance the timers; and that RETI restores IMR, F, PC and S. The Python machine (PCE500Emulator.step) is not encoded; its instruction-level half (IR;RETI) is C05.",
-    "level_note": _RS_NOTE,
+    "id": "C12", "engine": "pysym+rsym", "level": "other", "design_ref": "DESIGN.md section 9 / C12",
+    "technique": "inductive step decided by z3: one CoreRuntime::step of the real Rust runtime (LLVM IR, rsym) and one PCE500Emulator.step of the real Python machine (pysym) from an arbitrary interrupt-controller state (IMR, ISR, pending / in-interrupt / key-latch flags, power state, F, stack contents, vector, timer targets symbolic) for a set of programs at PC (NOP, RETI, HALT, OFF, writes to IMR/ISR), compared with the interrupt rules of the property statement",
+    "level_text": "Both machines, one step each. z3 decides for all controller states that an interrupt is taken only with the master enable and an unmasked pending source and never while powered off; that taking it pushes exactly IMR, F and the resume PC, clears only the master enable, continues at the vector and marks the handler; that an unmasked pending request is taken in the very next step; that nothing is pushed otherwise; that a halted / powered-off CPU executes nothing and leaves that state exactly when a status bit is pending; that a powered-off CPU does not advance the timers; and that RETI restores IMR, F, PC and S. The Python machine (pce500.emulator.PCE500Emulator.step, real method via pysym) is held to the same obligations from the same arbitrary state (vector and RETI return address fixed, see the evidence bounds); the instruction-level half (IR;RETI) is C05.",
+    "level_note": _PY_NOTE + " " + _RS_NOTE,
 })
 NOT_APPLICABLE[:] = [n for n in NOT_APPLICABLE if n["property_id"] not in {c["id"] for c in CHECKS}]
 RUNNERS["C18"] = ("sched_check", "main", ())
@@ -133,5 +132,13 @@ CHECKS.append({
     "technique": "symbolic execution of the real AsyncDriver (spawn / run_for, CycleSleep, emit_event; LLVM IR via rsym) with real async tasks whose sleep durations and run_for budgets are z3 variables; finite case split over task shapes and call counts; two runs of the same tasks under different budget sequences; z3 decides the scheduler obligations on every path",
     "level_text": "First half of the property only (the scheduler itself). z3 decides for all 6-bit sleep durations (0 included) and budgets, for 1-3 tasks with up to 3 sleeps and 2-4 run_for calls, that every task is resumed exactly at the sum of its sleeps, once and in program order, that virtual time never moves backwards, that run_for accounts its cycles, stays inside its budget and leaves no due task sleeping when it reports MaxCycles, that events come back exactly once in emission order, and that wake order and cycles do not depend on the budget partition (common prefix of two runs). Not covered: driving the CPU through the scheduler (async_cpu / async_runtime / async_devices) versus the synchronous step loop.",
     "level_note": _RS_NOTE,
+})
+NOT_APPLICABLE[:] = [n for n in NOT_APPLICABLE if n["property_id"] not in {c["id"] for c in CHECKS}]
+RUNNERS["C09"] = ("asm_check", "main", ())
+CHECKS.append({
+    "id": "C09", "engine": "pysym", "level": "translation_validation", "design_ref": "DESIGN.md section 9.8 / C09",
+    "technique": "symbolic round trip bytes -> real decode/render -> assembler source with magic numerals standing for z3 terms -> real lark parser + AsmTransformer + two-pass Assembler -> emitted bytes as terms -> real decode; z3 decides text / length / IL equality and the second-round fixpoint for all operand values of each (prefix, opcode, length) class",
+    "level_text": "Per encoding class the operand bytes are z3 variables. The real decoder renders the instruction; its text is turned into assembler source in which every number that is a term is written as a magic hexadecimal numeral (the text stays concrete, so the real grammar and tree transformer run unchanged; the rebound int() of the instrumented asm/sc_asm modules maps the numeral back to its term). The real Assembler.assemble emits bytes that are terms over the original operand bytes; z3 decides for all operand values that assembly succeeds, that the decoder consumes exactly the emitted bytes, that they render to the same text and (when the length is unchanged) lift to the same IL, and that a second disassemble/assemble round reproduces them. Bounded: one instruction per source text (control-flow opcodes also behind an .ORG on a high page), quick = no prefix + 4 PRE bytes, thorough = all 15; at most 0/1 named-register operand bytes per multi-byte operand field. The many assembler/decoder disagreements of the unchanged tree are listed key by key as known findings F24-F28.",
+    "level_note": _PY_NOTE + " bincopy.BinFile is replaced by a recorder of (address, bytes) chunks.",
 })
 NOT_APPLICABLE[:] = [n for n in NOT_APPLICABLE if n["property_id"] not in {c["id"] for c in CHECKS}]
